@@ -758,10 +758,11 @@ class SorteDeque(collections.deque):
 
     def resort(self, item):  # pragma: no cover
         if item in self:
-            # if item is already in self, see if it is still in sorted order.
-            # if not, re-sort it by removing it and then inserting it into its sorted order
-            i = bisect.bisect_left(self, item)
-            if i == len(self) or self[i] is not item:
+            # if item is already in self, see if it is still in sorted order: not before anything it now sorts after,
+            # not after anything it now sorts before (looking it up with bisect finds it wherever it stands - it
+            # compares equal to itself).  if not, re-sort it by removing it and then inserting it into its sorted order
+            i = next(n for n, x in enumerate(self) if x is item)
+            if (i > 0 and item < self[i - 1]) or (i < len(self) - 1 and self[i + 1] < item):
                 self.remove(item)
                 self.insort(item)
 
